@@ -8,6 +8,7 @@ import GqlgenVerif.Model.ServerStateCfg
 def <hexquery> <0|1 valid> <sha256>          text ↦ result of gqlparser + its SHA-256 (both libraries)
 pq <hexvalue> absent|invalid|badVersion|ok <hexhash>   persistedQuery value ↦ mapstructure result
 newserver                                   a new handler.Server (caches empty; the sync.Pool is per process)
+poolgc                                      two GC cycles: the pool is empty
 req <id> <apqHit> <qcHit> <request…>        serve one request alone: get(newest pooled) ; run ; put
 witness                                     search the regenerated reset list for a leaking two-request history
 ```
@@ -187,6 +188,7 @@ def stepD (d : DState) (line : String) : DState × String :=
       ({ d with pqs := (v, c) :: d.pqs }, "ok")
     | _, _ => (d, "bad-op")
   | ["newserver"] => ({ d with st := { d.st with held := [], caches := ⟨[], []⟩ } }, "ok")
+  | ["poolgc"] => ({ d with st := { d.st with pool := [] } }, "ok")
   | ["witness"] =>
     (d, match witnessFor genCfg with | some f => s!"leak {f}" | none => "none")
   | "req" :: id :: a :: q :: rest =>
